@@ -23,6 +23,8 @@ def cmd_check(args):
         return 2
     core.import_parglare()
     core.sweep_stale_scratch()
+    if tier == "thorough":
+        core.POOL_WALL["value"] = 6 * 3600.0
     mod = _module(prop)
     t0 = time.monotonic()
     print(f"# pgsim property={prop} tier={tier} VERIF_SEED={vseed} "
